@@ -298,6 +298,13 @@ def code_of(line: str) -> str:
 TOKENS = [b"secret", b"S3cr3t-Token_42", b"a", b"tok:with:colons", b"  spaced  ", b"\xc3\xa9\xff\x80bin"]
 
 
+def long_token(rng, n: int) -> bytes:
+    return bytes(rng.choice(b"abcdefghijklmnopqrstuvwxyzABCDEFGHIJKLMNOPQRSTUVWXYZ0123456789-_") for _ in range(n))
+
+
+LONG_TOKEN_LENGTHS = [1, 16, 127, 128, 129, 200, 1000, 4096]
+
+
 def token_variants(rng, tok: bytes):
     """(label, header lines contributing TOKEN, expected-to-carry-the-token?)"""
     other = bytes(rng.choice(b"abcdefghijklmnopqrstuvwxyz0123456789") for _ in range(max(1, len(tok))))
@@ -330,6 +337,16 @@ def token_variants(rng, tok: bytes):
         ("dup-bad-bad", [b"TOKEN:" + other, b"token:" + tok[:-1]]),
         ("doubled", [b"TOKEN:" + tok + tok]),
     ]
+    # wrong tokens that agree with the configured one on a long prefix (a comparison bounded to the first N bytes,
+    # or cut at a fixed buffer size, would accept them)
+    for k in (64, 127, 128, 129, len(tok) - 1):
+        if 0 <= k < len(tok):
+            flipped = tok[:k] + bytes([tok[k] ^ 0x01]) + tok[k + 1:]
+            v.append((f"differs-at-{k if k != len(tok) - 1 else 'last'}", [b"TOKEN:" + flipped]))
+    for k in (64, 127, 128, 129):
+        if k < len(tok):
+            v.append((f"prefix-{k}", [b"TOKEN:" + tok[:k]]))
+            v.append((f"prefix-{k}-other-tail", [b"TOKEN:" + tok[:k] + bytes(b ^ 0x20 if chr(b).isalpha() else b ^ 1 for b in tok[k:])]))
     return v
 
 
@@ -363,8 +380,8 @@ def gated_request(rng, cmd: str, tok_lines, refs, out_counter, payload=None, eol
     return lines, body
 
 
-def gen_case_c27(rng, big: bool) -> Case:
-    tok = rng.choice(TOKENS)
+def gen_case_c27(rng, big: bool, long_tok: bool = False) -> Case:
+    tok = long_token(rng, rng.choice(LONG_TOKEN_LENGTHS)) if long_tok else rng.choice(TOKENS)
     ops = [cfg(tok=tok, pow=0, cap=256)]
     ops.append("mk m1 " + hx(b"F1-" + bytes(rng.randrange(256) for _ in range(4))) + " 3600")
     ops.append("mk m2 " + hx(b"F2-" + bytes(rng.randrange(256) for _ in range(9))) + " 3600")
@@ -384,6 +401,9 @@ def gen_case_c27(rng, big: bool) -> Case:
         ops.append("mk m3 " + hx(payload) + " 3600")
         refs.append("m3")
     variants = token_variants(rng, tok)
+    if long_tok and len(tok) > 64:
+        far = [x for x in variants if x[0].startswith("differs-at") or x[0].startswith("prefix-") or x[0] in ("longer", "exact")]
+        variants = far * 3 + variants
     shape = rng.choice(["sweep-store", "sweep-fetch", "sweep-stop", "mixed", "mixed"])
     n = rng.randint(6, 14) if not big else rng.randint(20, 40)
     for i in range(n):
@@ -395,7 +415,7 @@ def gen_case_c27(rng, big: bool) -> Case:
         eol = b"\r\n" if rng.random() < 0.15 else b"\n"
         ops.append(req(rng.choice([1, 1, 2]), lines, body, eol=eol, end=eol))
     ops.append(req(1, [b"COMMAND:PING"]))
-    return Case(ops=ops, tag=shape)
+    return Case(ops=ops, tag=("long-" if long_tok else "") + shape)
 
 
 def gen_malformed_c27(rng) -> Case:
@@ -430,6 +450,8 @@ def generate(ctx, budget):
     for i in range(budget):
         if i % 6 == 5:
             out.append(gen_malformed_c27(ctx.rng))
+        elif i % 6 == 2:
+            out.append(gen_case_c27(ctx.rng, False, long_tok=True))
         else:
             out.append(gen_case_c27(ctx.rng, ctx.tier == "thorough" and i % 5 == 0))
     return out
